@@ -11,6 +11,7 @@
 use lyon_path::math::{point, Point};
 use lyon_tessellation::FillTessellator;
 use vh::fillgen::*;
+use vh::fillgen::{gen_monotone, monotone_outline, advanced_monotone_misbehaves};
 use vh::{CaseOut, Ctx, Oracle, Out, Rng};
 
 fn cross(o: Point, a: Point, b: Point) -> f64 {
@@ -37,49 +38,6 @@ fn inside(poly: &[Point], x: f64, y: f64) -> bool {
 
 /// A y-monotone polygon as the (position, is_left) sequence the sweep would feed:
 /// vertices in increasing (y, x) order, left chain at x<0, right chain at x>0.
-fn gen_monotone(rng: &mut Rng, n_mid: usize, pattern: Option<u32>, lattice: bool) -> Vec<(Point, bool)> {
-    let mut seq = Vec::new();
-    let mut y = 0.0f32;
-    let c = |rng: &mut Rng, lo: f64, hi: f64| -> f32 {
-        if lattice {
-            rng.range(lo as i64, hi as i64) as f32
-        } else {
-            rng.uniform(lo, hi) as f32
-        }
-    };
-    seq.push((point(c(rng, -1.0, 1.0), y), true));
-    for i in 0..n_mid {
-        y += if lattice { rng.range(1, 3) as f32 } else { rng.uniform(0.1, 3.0) as f32 };
-        let left = match pattern {
-            Some(p) => (p >> i) & 1 == 1,
-            None => rng.chance(1, 2),
-        };
-        let x = if left { -c(rng, 2.0, 10.0) } else { c(rng, 2.0, 10.0) };
-        seq.push((point(x, y), left));
-    }
-    y += if lattice { rng.range(1, 3) as f32 } else { rng.uniform(0.1, 3.0) as f32 };
-    seq.push((point(c(rng, -1.0, 1.0), y), true));
-    seq
-}
-
-/// boundary loop of the monotone polygon: begin, right chain downwards, end, left chain upwards
-fn monotone_outline(seq: &[(Point, bool)]) -> Vec<Point> {
-    let n = seq.len();
-    let mut v = vec![seq[0].0];
-    for (p, left) in &seq[1..n - 1] {
-        if !*left {
-            v.push(*p);
-        }
-    }
-    v.push(seq[n - 1].0);
-    for (p, left) in seq[1..n - 1].iter().rev() {
-        if *left {
-            v.push(*p);
-        }
-    }
-    v
-}
-
 fn mono_case(ctx: &mut Ctx, n_mid: usize, pattern: Option<u32>, basic: bool, valid: bool) {
     ctx.case("mono:32", |rng| {
         let lattice = rng.chance(1, 2);
@@ -113,6 +71,25 @@ fn mono_case(ctx: &mut Ctx, n_mid: usize, pattern: Option<u32>, basic: bool, val
             }
             if valid && !orc.failed() {
                 let outline = monotone_outline(&seq);
+                // witness class for the known defect of the ADVANCED tessellator: the basic one
+                // triangulates the same sequence correctly (area sum = polygon area)
+                let class: &str = if basic {
+                    "generic"
+                } else {
+                    let bt = lyon_tessellation::verif_monotone(&seq, true);
+                    let mut pa = 0.0f64;
+                    for i in 0..outline.len() {
+                        let (a, b) = (outline[i], outline[(i + 1) % outline.len()]);
+                        pa += a.x as f64 * b.y as f64 - b.x as f64 * a.y as f64;
+                    }
+                    let pa = pa.abs() * 0.5;
+                    let ba: f64 = bt.iter().map(|t| (cross(seq[t.0 as usize].0, seq[t.1 as usize].0, seq[t.2 as usize].0) * 0.5).abs()).sum();
+                    if (ba - pa).abs() <= 1e-4 * (1.0 + pa) && bt.len() == seq.len() - 2 {
+                        "advanced-chain-fan"
+                    } else {
+                        "generic"
+                    }
+                };
                 let mut parea = 0.0f64;
                 for i in 0..outline.len() {
                     let (a, b) = (outline[i], outline[(i + 1) % outline.len()]);
@@ -127,25 +104,36 @@ fn mono_case(ctx: &mut Ctx, n_mid: usize, pattern: Option<u32>, basic: bool, val
                     // centroid and edge mid-points pulled slightly towards the centroid must be inside
                     let (cx, cy) = ((a.x as f64 + b.x as f64 + c.x as f64) / 3.0, (a.y as f64 + b.y as f64 + c.y as f64) / 3.0);
                     if ar.abs() > 1e-6 {
-                        orc.check(inside(&outline, cx, cy), "monotone/inside", "generic", || format!("centroid of {:?} outside", t));
+                        orc.check(inside(&outline, cx, cy), "monotone/inside", class, || format!("centroid of {:?} outside", t));
                         for (p, q) in [(a, b), (b, c), (c, a)] {
                             let (mx, my) = ((p.x as f64 + q.x as f64) * 0.5, (p.y as f64 + q.y as f64) * 0.5);
                             let (px, py) = (mx + (cx - mx) * 1e-3, my + (cy - my) * 1e-3);
-                            orc.check(inside(&outline, px, py), "monotone/inside", "generic", || format!("edge mid-point of {:?} outside", t));
+                            orc.check(inside(&outline, px, py), "monotone/inside", class, || format!("edge mid-point of {:?} outside", t));
                         }
                     }
                 }
                 let tol = 1e-4 * (1.0 + parea);
-                orc.check((tarea - parea).abs() <= tol, "monotone/area", "generic", || format!("triangles {} polygon {}", tarea, parea));
+                orc.check((tarea - parea).abs() <= tol, "monotone/area", class, || format!("triangles {} polygon {}", tarea, parea));
             }
             CaseOut { imp: o, orcl: orc.verdict }
         })
     });
 }
 
-fn tiling_case(ctx: &mut Ctx) {
+fn tiling_case(ctx: &mut Ctx, monotone: bool) {
     ctx.case_check("chk_tiling", |rng| {
-        let poly = gen_poly(rng, 12);
+        let mut mono_seq: Option<Vec<(Point, bool)>> = None;
+        let poly = if monotone {
+            // a y-monotone polygon (as fed to the monotone stage) through the whole fill
+            let n_mid = rng.range(3, 14) as usize;
+            let lattice = rng.chance(1, 4);
+            let seq = gen_monotone(rng, n_mid, None, lattice);
+            let p = Poly { subs: vec![(monotone_outline(&seq), true)], kind: "monotone" };
+            mono_seq = Some(seq);
+            p
+        } else {
+            gen_poly(rng, 24)
+        };
         let cfg = FillCfg::gen(rng);
         let mut args = Out::new();
         cfg.put(&mut args);
@@ -168,6 +156,15 @@ fn tiling_case(ctx: &mut Ctx) {
             for t in mesh.indices.chunks(3) {
                 orc.check(t.len() == 3 && t[0] != t[1] && t[1] != t[2] && t[0] != t[2], "fill/distinct-ids", "generic", || format!("{:?}", t));
                 orc.check(t.iter().all(|&i| i < nv), "fill/index-valid", "generic", || format!("{:?}", t));
+            }
+            // known defect of the advanced monotone tessellator, attributed exactly through hook H2:
+            // on this very (position, side) sequence the advanced tessellator's triangles overlap /
+            // leave the polygon while the basic tessellator's do not. Only for the vertical sweep
+            // (the sequence is the one the sweep feeds).
+            if let Some(seq) = &mono_seq {
+                if cfg.orientation == lyon_tessellation::Orientation::Vertical && advanced_monotone_misbehaves(seq) {
+                    orc.check(false, "fill/tiling", "advanced-chain-fan", || "advanced monotone tessellator misbehaves on this monotone polygon (basic is correct)".into());
+                }
             }
             if orc.failed() {
                 return (CaseOut { imp: o, orcl: orc.verdict }, None);
@@ -198,9 +195,9 @@ fn main() {
         let n_mid = 1 + (i % 38) as usize;
         mono_case(&mut ctx, n_mid, None, i % 2 == 0, i % 5 != 0);
     }
-    let n = ctx.n(300, 20000);
-    for _ in 0..n {
-        tiling_case(&mut ctx);
+    let n = ctx.n(600, 30000);
+    for i in 0..n {
+        tiling_case(&mut ctx, i % 3 == 0);
     }
     ctx.finish();
 }
